@@ -10,8 +10,8 @@ LEVEL = 'model_checking'
 RULE = ('every program t(..) :- [Gv = Goal,] Builtin for Builtin in {call(G), call(G\',Extra..) for every split of '
         'the goal\'s arguments into carried and extra arguments, once(G), \\+ call(G), findall(T,G,L) for 6 templates, '
         'each optionally followed by a continuation goal or used twice in a row on the same goal term} x goal in {atoms and compound goals with 0/1/2 solutions '
-        'over compiled facts, a rule, dynamic facts, an undefined predicate} x goal written inline or arriving in a '
-        'variable bound at run time [thorough: x one level of nesting of the builtins inside each other], each '
+        'over compiled facts, a rule, dynamic facts, an undefined predicate} x goal written inline, arriving in a '
+        'variable bound at run time, or through a chain of two variables aliased before the goal is bound [thorough: x one level of nesting of the builtins inside each other], each '
         'queried with unbound and bound arguments and compared answer by answer with RefProlog; plus X = Y and '
         'X \\= Y as goals for every pair of printable terms of depth <=1 over 2 variables. Through the Python API the SAME goal term objects are passed to call/N, once/1 and findall/3 three times in a row. Unbound variables inside a '
         'findall bag are observed anonymously (whether they are shared is not fixed by the property). states = '
@@ -80,7 +80,7 @@ def programs(nesting):
     idx = 0
     for goal in GOALS:
         for tag, g2, mk, usesL in builtin_goals(goal, nesting):
-            for via_var in (False, True):
+            for via_var in (False, True, 'chain'):
                 # a continuation after findall must not bind a variable that the goal left
                 # unbound inside an instance: whether instances share such variables with the
                 # caller is not fixed by the property (see DESIGN C09), so it binds W only
@@ -94,7 +94,13 @@ def programs(nesting):
 
 
 def make_case(goal, tag, g2, mk, usesL, via_var, cont):
-    if via_var:
+    if via_var == 'chain':
+        # the goal reaches the builtin through a chain of variable bindings made outer-first:
+        # G is aliased to the still unbound H before H gets the goal
+        H = V('H')
+        pre = [call(F('=', G, H)), call(F('=', H, g2))]
+        body = conj(*(pre + [mk(G), mk(G)])) if cont == 'twice' else conj(*(pre + [mk(G)]))
+    elif via_var:
         body = conj(call(F('=', G, g2)), mk(G), mk(G)) if cont == 'twice' else conj(call(F('=', G, g2)), mk(G))
     else:
         body = conj(mk(g2), mk(g2)) if cont == 'twice' else mk(g2)
